@@ -6,6 +6,7 @@ package main
 import (
 	"fmt"
 	"os"
+	"syscall"
 )
 
 type command struct {
@@ -21,6 +22,12 @@ func register(name, help string, run func(args []string) error) {
 }
 
 func main() {
+	// many application instances are opened one after another; some of their databases are never closed by the application
+	var lim syscall.Rlimit
+	if syscall.Getrlimit(syscall.RLIMIT_NOFILE, &lim) == nil {
+		lim.Cur = lim.Max
+		_ = syscall.Setrlimit(syscall.RLIMIT_NOFILE, &lim)
+	}
 	if len(os.Args) < 2 {
 		fmt.Fprintln(os.Stderr, "usage: rigodrv <command> [flags]")
 		for _, c := range commands {
